@@ -747,6 +747,9 @@ func (ex *executor) convert(st *state, x Value, from, to types.Type, pos token.P
 		if q, ok := ex.floorDivLemma(st, x.C[0], w); ok {
 			return Value{T: to, C: []*Term{q}}
 		}
+		if q, ok := ex.exactSmallIntLemma(x.C[0], w); ok {
+			return Value{T: to, C: []*Term{q}}
+		}
 		op := fmt.Sprintf("(_ fp.to_ubv %d) RTZ", w)
 		if sg {
 			op = fmt.Sprintf("(_ fp.to_sbv %d) RTZ", w)
@@ -1197,6 +1200,41 @@ func (ex *executor) execNext(st *state, t *ssa.Next) {
 func isBlankTuple(t types.Type) bool {
 	b, ok := t.(*types.Basic)
 	return ok && b.Kind() == types.Invalid
+}
+
+// exactSmallIntLemma: conversions of small unsigned integers through float64 are exact (every integer below 2^53 is
+// a float64, and so is the difference of two integers below 2^32), so
+//   int(float64(x))                          == x                       for x of at most 32 bits, unsigned
+//   int(math.Abs(float64(x)))                == x
+//   int(math.Abs(float64(a) - float64(b)))   == |a - b| (as integers)   for a, b of at most 32 bits, unsigned
+// (Trusted arithmetic lemma; SMT solvers do not decide the floating-point formulation in reasonable time.)
+func (ex *executor) exactSmallIntLemma(f *Term, w int) (*Term, bool) {
+	const conv = "(_ to_fp_unsigned 11 53) RNE"
+	small := func(t *Term) (*Term, bool) {
+		if t.op == conv && len(t.args) == 1 && t.args[0].sort.K == SBV && t.args[0].sort.W <= 32 {
+			return t.args[0], true
+		}
+		return nil, false
+	}
+	inner := f
+	isAbs := false
+	if f.op == "app" && strings.HasPrefix(f.name, "fn:math.Abs#") && len(f.args) == 1 {
+		inner, isAbs = f.args[0], true
+	}
+	if x, ok := small(inner); ok {
+		ex.root().abstracted["trusted lemma: int(float64(x)) == x for unsigned x of at most 32 bits (also under math.Abs)"]++
+		return Resize(x, w, false), true
+	}
+	if isAbs && inner.op == "fp.sub RNE" && len(inner.args) == 2 {
+		a, oka := small(inner.args[0])
+		b, okb := small(inner.args[1])
+		if oka && okb {
+			a64, b64 := Resize(a, w, false), Resize(b, w, false)
+			ex.root().abstracted["trusted lemma: int(math.Abs(float64(a)-float64(b))) == |a-b| for unsigned a, b of at most 32 bits"]++
+			return Ite(BVCmp("bvuge", a64, b64), BVBin("bvsub", a64, b64), BVBin("bvsub", b64, a64)), true
+		}
+	}
+	return nil, false
 }
 
 // floorDivLemma: int(math.Floor(float64(a)/float64(b))) for unsigned 32-bit a, b with b != 0
